@@ -328,7 +328,7 @@ def request_ids(chk, ex):
     f = ex.fns
     F_new = [n for n in mir.find(f, r'server::<impl at [^>]*>::new$', unique=False) if 'ServerRequestHandler' in (f[n].ret or '')][0]
     F_call = [n for n in mir.find(f, r'server::<impl at [^>]*>::call$', unique=False) if 'ServerRequestHandler' in f[n].locals.get('_1', '')][0]
-    NREQ = 3
+    NREQ = 3 if chk.tier == 'quick' else 5
     class S: drawn = 0; seen = []; outcome = None
     gen = [sstr(f'generated_id_{k}') for k in range(2 * NREQ + 2)]
     ext, intl = sstr('external_message'), sstr('internal_message')
